@@ -277,6 +277,11 @@ func (g *Gen) genBool(d int) Expr {
 			// trivially true-ish comparison keeps several rules in the conflict set
 			return &Bin{Op: ">=", L: a, R: &Bin{Op: "-", L: a, R: CI(int64(g.pick(2)))}}
 		}
+		if g.chance(0.12) {
+			// a whole-valued real literal (2.0) next to the integer literals of the same value (2) other places of the rule set
+			// hold - in % and &, as selectors, as method arguments - where the kind matters
+			b = &Const{T: "r", I: int64(g.pick(5))}
+		}
 		return &Bin{Op: op, L: a, R: b}
 	case c == 5:
 		return &Not{E: g.genBool(d - 1)}
@@ -328,6 +333,13 @@ func (g *Gen) genAction(self string) *Action {
 			return &cp
 		}
 		a := &Action{Kind: "set", Name: []string{"SetX", "SetY"}[g.pick(2)], E: g.exactInt(1)}
+		if g.p.PFault > 0 && g.chance(0.4) {
+			// a method without a result that panics for one argument value: the failure of a call statement itself
+			a = &Action{Kind: "set", Name: "SetRisky", E: g.exactInt(1)}
+			if g.chance(0.5) {
+				a.E = P("F.X")
+			}
+		}
 		if g.sharedSet == nil {
 			g.sharedSet = a
 		}
